@@ -122,16 +122,10 @@ theorem rotateCols_congr (M : Mat) {G H : G2} (h : G.SameEntries H) (a b : Nat) 
 
 theorem params_same (tol : Rat) (htol : 0 < tol) (a b : GQ) (right : Bool) (G : G2) (s c : Rat) (e : GQ)
     (hexa : small tol a = true → a = 0) (hexb : small tol b = true → b = 0)
-    (hreal : realish tol a b = true → a.im = 0 ∧ b.im = 0)
+    (hreal : RealExact tol a b)
     (h : givensElems tol a b right = .ok G) (hp : params G = .ok (s, c, e)) : (rotationOf s c e).SameEntries G := by
-  unfold givensElems at h
-  cases hC : cosSinPhase tol a b with
-  | error e' => simp [hC, bind, Except.bind] at h
-  | ok t =>
-    obtain ⟨c', s', ph⟩ := t
-    simp only [hC, bind, Except.bind] at h
-    injection h with h; subst h
-    exact params_assemble (cosSinPhase_spec htol hexa hexb hC) right _ hreal hp
+  obtain ⟨c', s', ph, hC, hr, rfl⟩ := givensElems_inv hreal h
+  exact params_assemble (cosSinPhase_spec htol hexa hexb hC) right _ hr hp
 
 /-- in the exact regime the matrix after a layer is obtained by applying the RECORDED rotations -/
 theorem colLayer_applied (tol : Rat) (htol : 0 < tol) (ai : Bool) :
